@@ -514,6 +514,10 @@ class Extractor:
         for x, y in ((a, b), (b, a)):
             if x[0] == 'len' and _num(y) == 0:
                 return mk_not(self.truth(x[1]))
+        # a conditional value compared with something: decided by the condition
+        for x, y in ((a, b), (b, a)):
+            if x[0] == 'ite' and not _find_ite(y):
+                return mk_or(mk_and(x[1], self.eq(x[2], y)), mk_and(mk_not(x[1]), self.eq(x[3], y)))
         for x, y in ((a, b), (b, a)):
             if x[0] == 'first' and y == NONE:
                 return mk_not(mk_any(x[1], x[2]))
@@ -1232,6 +1236,18 @@ def _resort_outcome(o):
     return ('out', tuple(sorted(o[1], key=repr)), _sort_effects(list(o[2])), o[3])
 
 
+def _news_in(t, acc=None):
+    acc = acc if acc is not None else set()
+    if isinstance(t, tuple):
+        if _is_new(t):
+            acc.add(t)
+        else:
+            for x in t:
+                if isinstance(x, tuple):
+                    _news_in(x, acc)
+    return acc
+
+
 def resolve_fresh(q):
     """name every locally created container by the place it is finally stored at (dict key / attribute of
     another object); the storing write itself is dropped, a ('mk', place, kind) marker records the creation."""
@@ -1241,6 +1257,16 @@ def resolve_fresh(q):
             sub[e[3]] = ('item', e[1], e[2])
         elif e[0] == 'set' and _is_new(e[2]) and e[2] not in sub:
             sub[e[2]] = ('attr', e[1][0], e[1][1])
+    # a locally created container that is never filled and never stored anywhere is just an empty literal
+    touched = {}
+    for e in q.effects:
+        for o in _news_in(e):
+            touched.setdefault(o, []).append(e)
+    for o, es in touched.items():
+        if o not in sub and len(es) == 1 and es[0][0] == 'mk' and es[0][1] == o:
+            sub[o] = ('dict', ()) if es[0][2] == 'dict' else ('list', ())
+            q = q.clone()
+            q.effects = [e for e in q.effects if e is not es[0]]
     if not sub:
         return q
     # chains: o2 stored in o1, o1 stored in the heap
